@@ -46,6 +46,11 @@ class Runaway(Exception):
   """A worker's sampling loop does not end (e.g. end_loop() never reaches it)."""
 
 
+class TransientProposeError(ValueError):
+  """Raised by the harness' recording algorithm on its k-th `_propose` call (like Evolution's
+  'no child reproduced' ValueError): the worker's pg.sample generator dies with it."""
+
+
 class SchedAbort(BaseException):
   """Unwinds a parked worker thread when the run is aborted (deadlock / time-out)."""
 
@@ -83,6 +88,7 @@ class Sched:
     self.total_yields = 0
     self.preempted_sites = {}
     self.serial_ctor = False
+    self.no_preempt = False
     self.unwinding = set()
     self.ctor_done = [False] * n
 
@@ -114,6 +120,8 @@ class Sched:
 
   # -- yield points -------------------------------------------------------------------------
   def yield_point(self, tid, hot, kind=None):
+    if self.no_preempt:                # the harness itself reads poll_result(): not a scheduling point
+      return
     if self.abort:
       if tid in self.unwinding:      # already unwinding (e.g. the sample() generator being closed)
         return
@@ -288,6 +296,8 @@ class Run:
     self.trial_objs = {}               # trial id -> distinct Trial objects handed out under that id
     self.group_trials = {}             # group -> Trial objects handed to its workers
     self.pub_two_pending = []
+    self.mid_viol = []                 # status counters vs trial list, checked after every user-level step
+    self.ended = [None] * self.n       # 'stop' | 'crash'
 
   # -- locks ---------------------------------------------------------------------------------
   def on_acquire(self, tid, lock):
@@ -382,7 +392,13 @@ class Run:
       self.sched.wait_turn(tid)
       sys.settrace(self.global_trace)
       try:
-        self.user_loop(tid, w)
+        try:
+          self.user_loop(tid, w)
+          self.ended[tid] = 'stop'
+        except TransientProposeError:
+          self.ended[tid] = 'crash'
+        self.raw.append({'w': tid, 'k': 'user.end', 'how': self.ended[tid]})
+        self.snapshot(tid)
       finally:
         sys.settrace(None)
     except SchedAbort:
@@ -399,8 +415,19 @@ class Run:
     env, pg = self.env, self.env.pg
     script = list(w['script'])
     i = 0
-    for _, fb in pg.sample(env.spec, self.algo, num_examples=self.case['max'], name=self.name,
-                           group=w['group'], early_stopping_policy=self.policy):
+    gen = pg.sample(self.spec, self.algo, num_examples=self.case['max'], name=self.name,
+                    group=w['group'], early_stopping_policy=self.policy)
+    try:
+      self.iterate(tid, w, gen, script)
+    finally:
+      if self.sched.abort:
+        self.sched.unwinding.add(tid)      # closing the generator of an aborted run is not a scheduling point
+      gen.close()
+
+  def iterate(self, tid, w, gen, script):
+    i = 0
+    for _, fb in gen:
+      self.snapshot(tid)
       dr = self.case.get('dr', 10)
       act = script[i] if i < len(script) else ['done', dr + (int(fb.id) if dr > 0 else -int(fb.id) if dr < 0 else 0)]
       i += 1
@@ -441,15 +468,60 @@ class Run:
             fb.end_loop()
           elif act[0] == 'nop':
             pass
+      except TransientProposeError:
+        raise
       except ValueError:
         self.raw.append({'w': tid, 'k': 'user.valueerror'})
+      self.snapshot(tid)
+
+  def snapshot(self, tid):
+    """After every user-level step, while nobody is inside a critical section of the backend: what
+    poll_result(name) and the algorithm show. Checked by the oracle (counters vs. trial list, dense ids)
+    and sent to the model as a `poll` action (the model must be in exactly this state here)."""
+    if any(('study' in h or 'registry' in h) for h in self.held):
+      return
+    pg = self.env.pg
+    self.sched.no_preempt = True
+    try:
+      try:
+        result = pg.tuning.poll_result(self.name)
+      except ValueError:
+        result = None
+      if result is None:
+        snap = None
+      else:
+        trials = []
+        for t in result.trials:
+          fm = t.final_measurement
+          trials.append([int(t.id), t.status == 'COMPLETED', bool(t.infeasible),
+                         None if fm is None or fm.reward is None else int(fm.reward)])
+        text = str(result)
+        m = {k: re.search(r"%s['\"]?[:=]\s*'?(-?\d+)/(\d+)" % k, text) for k in ('PENDING', 'COMPLETED', 'infeasible')}
+        cnt = [int(m[k].group(1)) if m[k] else 0 for k in ('PENDING', 'COMPLETED', 'infeasible')]
+        setup = self.algo.dna_spec is not None
+        snap = [trials] + cnt + [None if result.best_trial is None else int(result.best_trial.id),
+                                 int(self.algo.num_proposals) if setup else 0,
+                                 int(self.algo.num_feedbacks) if setup else 0]
+        n = len(trials)
+        ncomp = sum(1 for t in trials if t[1])
+        ninf = sum(1 for t in trials if t[2])
+        if not self.mid_viol:
+          if [t[0] for t in trials] != list(range(1, n + 1)):
+            self.mid_viol.append('trial ids are %s' % [t[0] for t in trials])
+          elif cnt != [n - ncomp, ncomp, ninf]:
+            self.mid_viol.append('str(result) says PENDING %d COMPLETED %d infeasible %d for %d pending, %d completed, '
+                                 '%d infeasible trials' % (cnt[0], cnt[1], cnt[2], n - ncomp, ncomp, ninf))
+    finally:
+      self.sched.no_preempt = False
+    self.raw.append({'w': tid, 'k': 'poll', 'snap': snap})
 
   def go(self):
     global CUR
     env, case = self.env, self.case
     env.counter += 1
     self.name = 'c16-%d-%d' % (os.getpid(), env.counter)
-    self.algo = env.make_algo(case['algo'])
+    self.spec = env.spec_of(case.get('space'))
+    self.algo = env.make_algo(case['algo'], case.get('space'), case.get('fail_at'))
     self.policy = env.make_policy() if any(a and a[0] == 'earlystop' for w in case['workers'] for a in w['script']) else None
     CUR = self
     threads = [threading.Thread(target=self.worker, args=(i,), daemon=True) for i in range(self.n)]
@@ -499,6 +571,8 @@ class Run:
     obs['proposals'] = int(self.algo.num_proposals) if self.algo.dna_spec is not None else 0
     obs['feedbacks'] = int(self.algo.num_feedbacks) if self.algo.dna_spec is not None else 0
     obs['nstudies'] = len(self.studies)
+    obs['ended'] = self.ended
+    obs['mid_viol'] = self.mid_viol[:1]
     obs['clones'] = sorted(t for t, objs in self.trial_objs.items() if len(objs) > 1)
     obs['pub_two_pending'] = self.pub_two_pending[:3]
     if any(s['kind'] == 'bf.call' for s in self.env.info['sites']):
@@ -541,7 +615,7 @@ ACCESSORS = {'is_active', 'get_latest_trial', 'next_trial_id', 'dna_spec', 'id',
 IGNORED = {'pr.call.inner', 'pr.count.inner', 'pr.count.w.inner', 'fb.call.inner', 'fb.count.inner',
            'fb.count.w.inner', 'goc.new', 'next.create', 'next.ret', 'done.hasmeas', 'done.feedback', 'done.meta', 'done.complete',
            'bf.reward', 'bf.call', 'fb.call', 'pr.call', 'pr.count', 'pr.count.w', 'skip.infeasible', 'skip.final',
-           'skip.complete', 'cp.inftest', 'cp.besttest', 'cp.time', 'user', 'user.valueerror',
+           'skip.complete', 'cp.inftest', 'cp.besttest', 'cp.time', 'user', 'user.valueerror', 'user.end',
            'ct.pending.w', 'cp.completed.w', 'cp.pending.w', 'cp.infeasible.w'}
 
 
@@ -578,6 +652,8 @@ def to_actions(raw, n):
       k = raw[j]['k']
       if k == 'next.ret':
         return {'t': raw[j]['t']}
+      if k == 'user.end':
+        return {'crash': True} if raw[j].get('how') == 'crash' else {'fin': True}
       if k in ('next.active', 'user'):
         break
       j = per_thread_next.get(j)
@@ -605,6 +681,8 @@ def to_actions(raw, n):
           a.append(first.get('r', 0))
         if name in ('nextAtomic', 'createAtomic'):
           ex = expectation_after(i)
+          if ex and ex.get('crash'):
+            a[1] = name + 'Err'                  # the proposer raised a transient error
           if ex:
             a.append(ex)
         acts.append(a)
@@ -613,7 +691,9 @@ def to_actions(raw, n):
       region[w].append(e)
       continue
     # unprotected accesses -------------------------------------------------------------------
-    if k == 'next.active':
+    if k == 'poll':
+      acts.append([w, 'poll', {'snap': e['snap']}])
+    elif k == 'next.active':
       if started[w]:
         acts.append([w, 'release'])
       started[w] = True
@@ -689,7 +769,8 @@ class Env:
     for name in self.info['registryLocks']:
       kind = t_c16.module_locks(__import__('ast').parse(open(os.path.join(root, t_c16.LB)).read()))[name]
       setattr(local_backend, name, CoopLock('registry', kind == 'RLock'))
-    self.spec = pg.dna_spec(pg.oneof(list(range(64))))
+    self.specs = {}
+    self.spec = self.spec_of(None)
     self.check_accessors(root)
 
     class Rec(pg.DNAGenerator):
@@ -697,9 +778,16 @@ class Env:
 
       def _setup(self):
         self.seen = []
+        self._attempts = 0
 
       def _propose(self):
-        return pg.DNA(self.num_proposals % 64)
+        limit, fail_at = getattr(self, '_limit', None), getattr(self, '_fail_at', None)
+        self._attempts = self._attempts + 1
+        if limit is not None and self.num_proposals >= limit:
+          raise StopIteration()                 # a finite proposer is exhausted
+        if fail_at is not None and self._attempts == fail_at:
+          raise TransientProposeError('proposal %d failed' % fail_at)
+        return pg.DNA(self.num_proposals % (limit or 64))
 
       def _feedback(self, dna, reward):
         self.seen.append((dna.value, reward))
@@ -724,10 +812,19 @@ class Env:
           if len(body) > 1 or (body and not isinstance(body[0], (ast.Return, ast.Pass))):
             self.accessors.discard(n.name)
 
-  def make_algo(self, kind):
+  def spec_of(self, space):
+    if space not in self.specs:
+      self.specs[space] = self.pg.dna_spec(self.pg.oneof(list(range(space or 64))))
+    return self.specs[space]
+
+  def make_algo(self, kind, space=None, fail_at=None):
     pg = self.pg
     if kind == 'record':
-      return self.Rec()
+      a = self.Rec()
+      a._limit, a._fail_at = space, fail_at      # pylint: disable=protected-access
+      return a
+    if kind == 'sweep':
+      return pg.geno.Sweeping()                  # raises StopIteration after `space` proposals
     if kind == 'random':
       return pg.geno.Random(seed=1)
     if kind == 'evolution':
@@ -849,17 +946,26 @@ class C16(Prop):
     else:
       groups = [rng.below(ngroups) for _ in range(n)]
     allow_end = rng.chance(0.15)
-    mx = rng.randint(1, 6) if rng.chance(0.9) else None
-    if mx is None:
+    mx = rng.randint(1, 6) if rng.chance(0.85) else None
+    # proposers that raise: a finite space (StopIteration by exhaustion, also with num_examples=None) and
+    # a transient error on the k-th proposal
+    space = rng.randint(1, 5) if rng.chance(0.3) else None
+    fail_at = rng.randint(1, 4) if rng.chance(0.12) else None
+    if mx is None and space is None:
       allow_end = True
     workers = []
     for g in groups:
       script = gen_script(rng, rng.randint(0, 4), allow_end)
-      if mx is None:
+      if mx is None and space is None:
         script = script[:3] + [['end']]
       workers.append({'group': g, 'script': script})
-    algo = rng.weighted([(6, 'record'), (3, 'random'), (1, 'evolution')])
-    return {'workers': workers, 'max': mx, 'algo': algo,
+    if space is not None:
+      algo = rng.weighted([(1, 'sweep'), (1, 'record')])
+    else:
+      algo = rng.weighted([(6, 'record'), (3, 'random'), (1, 'evolution')])
+    if fail_at is not None:
+      algo = 'record'
+    return {'workers': workers, 'max': mx, 'algo': algo, 'space': space, 'fail_at': fail_at,
             'dr': rng.weighted([(5, 10), (2, 0), (3, -10)]),     # base of the default reward (10+id / 0 / -10-id)
             'ctor': rng.choice(['serial', 'concurrent', 'concurrent']),
             'sched': {'mode': 'random', 'seed': rng.below(1 << 30),
@@ -870,7 +976,7 @@ class C16(Prop):
     configs = [
         {'workers': [{'group': 0, 'script': [['done', 5]]}, {'group': 0, 'script': [['done', 7]]}], 'max': 2},
         {'workers': [{'group': 0, 'script': [['done', 5]]}, {'group': 1, 'script': [['skip']]}], 'max': 3},
-        self.SMALL[3],
+        self.SMALL[3], self.SMALL[4], self.SMALL[5], self.SMALL[6],
     ]
     if tier == 'thorough':
       configs += [
@@ -883,12 +989,12 @@ class C16(Prop):
     horizon = 80 if tier == 'quick' else 130
     for cfg in configs:
       for ctor in ('serial', 'concurrent'):
-        base = dict(cfg, algo='record', ctor=ctor)
+        base = dict(cfg, algo=cfg.get('algo', 'record'), ctor=ctor)
         for a in range(horizon):
           yield dict(base, sched={'mode': 'directives', 'd': [['hot', a, 0]]})
         if tier == 'thorough':
           for a in range(0, horizon):
-            for b in range(a + 1, min(horizon, a + 23)):
+            for b in range(a + 1, min(horizon, a + 16)):
               yield dict(base, sched={'mode': 'directives', 'd': [['hot', a, 0], ['hot', b, 0]]})
 
   SMALL = [
@@ -900,6 +1006,13 @@ class C16(Prop):
       # skipped trials among non-positive rewards
       {'workers': [{'group': 0, 'script': [['skip'], ['done', -2]]}, {'group': 1, 'script': [['done', 0], ['skip']]}],
        'max': 4, 'dr': -10},
+      # proposers that raise inside create_trial: a 3-point Sweeping space under a larger budget, a
+      # finite space with num_examples=None, a transient error on the second proposal
+      {'workers': [{'group': 0, 'script': []}, {'group': 1, 'script': [['skip']]}, {'group': 2, 'script': []}],
+       'max': 6, 'space': 3, 'algo': 'sweep'},
+      {'workers': [{'group': 0, 'script': [['done', 1]]}, {'group': 0, 'script': []}], 'max': None, 'space': 2},
+      {'workers': [{'group': 0, 'script': [['done', 5]]}, {'group': 1, 'script': [['done', 7]]}], 'max': 3,
+       'fail_at': 2},
   ]
 
   def targeted(self, rng, tier, target):
@@ -909,7 +1022,7 @@ class C16(Prop):
     horizon = 70 if tier == 'quick' else 140
     for cfg in self.SMALL:
       for ctor in ('concurrent', 'serial'):
-        base = dict(cfg, algo='record', ctor=ctor, target=target)
+        base = dict(cfg, algo=cfg.get('algo', 'record'), ctor=ctor, target=target)
         for a in range(horizon):
           yield dict(base, sched={'mode': 'directives', 'd': [['hot', a, 0]]})
         if tier == 'thorough':
@@ -944,7 +1057,7 @@ class C16(Prop):
     n = len(case['workers'])
     acts = to_actions(run.raw, n)
     req = {'op': 'run', 'n': n, 'groups': [w['group'] for w in case['workers']], 'max': case['max'],
-           'acts': acts}
+           'space': case.get('space'), 'acts': acts}
     out = {'obs': obs, 'taken': run.sched.taken, 'yields': run.sched.total_yields,
            'hot': run.sched.hot_seen, 'preempted_sites': run.sched.preempted_sites,
            'nacts': len(acts), 'flags': env.info['flags'], 'tlock_mismatch': run.tlock_mismatch[:5],
@@ -1055,8 +1168,17 @@ class C16(Prop):
       return {'signature': 'ids', 'what': 'trial ids are %s' % ids}
     if case['max'] is not None and n > case['max']:
       return {'signature': 'too-many-trials', 'what': '%d trials for num_examples=%d' % (n, case['max'])}
-    if case['max'] is not None and not ended and n != case['max']:
-      return {'signature': 'wrong-number-of-trials', 'what': '%d trials for num_examples=%d' % (n, case['max'])}
+    crashed = any(e == 'crash' for e in obs['ended'])
+    limits = [x for x in (case['max'], case.get('space')) if x is not None]
+    want = min(limits) if limits else None
+    if want is not None and n > want:
+      return {'signature': 'too-many-trials', 'what': '%d trials for num_examples=%s over a space of %s points' % (
+          n, case['max'], case.get('space'))}
+    if want is not None and not ended and not crashed and n != want:
+      return {'signature': 'wrong-number-of-trials',
+              'what': '%d trials for num_examples=%s over a space of %s points' % (n, case['max'], case.get('space'))}
+    if obs['mid_viol']:
+      return {'signature': 'count-mismatch', 'what': 'in the middle of the run: ' + obs['mid_viol'][0]}
     if multi:
       return {'signature': 'trial-to-two-groups', 'what': 'trials %s were handed to several groups' % multi}
     unknown = sorted(t for t in by_trial if t not in ids)
@@ -1112,7 +1234,7 @@ class C16(Prop):
       return {'signature': 'count-mismatch',
               'what': 'str(result) says COMPLETED %d PENDING %d infeasible %d; trials: %d completed, %d pending, %d '
                       'infeasible' % (st['completed'], st['pending'], st['infeasible'], ncomp, n - ncomp, ninf)}
-    if not ended and case['max'] is not None and ncomp != n:
+    if not ended and want is not None and ncomp != n:
       return {'signature': 'pending-at-quiescence', 'what': '%d of %d trials completed' % (ncomp, n)}
     feas = [t for t in st['trials'] if t['completed'] and not t['infeasible'] and t['final'] is not None]
     if st['best'] is None:
